@@ -353,6 +353,16 @@ func (e *Evaluator) evalNestedExpr(expr Expr) (*Cell, error) {
 	case *ExprObject:
 		obj := NewObject()
 		for _, kv := range exp.Items {
+			key := kv.Key
+			if kv.KeyToken != nil {
+				// a quoted key is a string literal like any other
+				keyCell, err := e.evalString(kv.Key)
+				if err != nil {
+					return nil, e.error(*kv.KeyToken, err.Error())
+				}
+				key = *keyCell.Value.Str
+			}
+
 			value, err := e.evalExpr(kv.Value)
 			if err != nil {
 				return nil, err
@@ -364,7 +374,7 @@ func (e *Evaluator) evalNestedExpr(expr Expr) (*Cell, error) {
 				return nil, e.error(kv.Value.Token(), err.Error())
 			}
 
-			(*obj.Obj)[kv.Key] = newCell
+			(*obj.Obj)[key] = newCell
 		}
 		return NewCell(obj), nil
 	default:
